@@ -371,10 +371,15 @@ impl Engine for C01 {
                             env: vec![],
                             env_remove: vec![],
                             timeout: Duration::from_secs(8),
-                            stdout_to: None,
+                            // (a third of the stdin -> stdout runs write to a full device: the
+                            // command must report that, not die of it)
+                            stdout_to: if k == "cli-proc-stdin" && scn.entropy % 3 == 1 { full_device(env) } else { None },
                             stdin_file: None,
                         },
                     );
+                    if k == "cli-proc-stdin" && scn.entropy % 3 == 1 {
+                        res.stats.fault("fs.stdout-dev-full");
+                    }
                     let cr = match cr {
                         Ok(c) => c,
                         Err(e) => {
@@ -461,7 +466,11 @@ impl Engine for C01 {
                         }
                     }
                     let srv = guard.as_mut().unwrap();
+                    // (two of three requests go on the wire in an unusual but valid way: other
+                    // Content-Types, none, non-ASCII parameters, the body in several pieces)
+                    set_http_style(if scn.entropy % 3 == 0 { 0 } else { scn.entropy | 1 });
                     let r = srv.post(&scn.doc.0, if scn.cfg.add_metadata { Some(true) } else { None }, Duration::from_secs(8));
+                    set_http_style(0);
                     res.stats.evaluations += 1;
                     res.stats.frontend("server-proc");
                     match r {
